@@ -69,6 +69,13 @@
 (* Part "jit"     jitter_val as a constructor argument: strategy x JitArgs *)
 (*   (not given, the dtype default given explicitly, 0, small, large) and  *)
 (*   the value every site that reads the jitter of Kzz must use.           *)
+(* Part "qu"      strategy x distribution x STRUCTURE / CONDITIONING of q(u)   *)
+(*   (near the prior, diagonal, dense, dense ill-conditioned) x number of    *)
+(*   inducing points below / above the iteration cap of the Lanczos          *)
+(*   estimate, with the iterative solves each cell performs and the setting  *)
+(*   that caps them: no cap may cut a solve short of the tolerance setting.  *)
+(*   Variant.preccap = "lanczos" (the natural-gradient CIQ solve with the    *)
+(*   precision capped like the Lanczos estimate) is rejected.                *)
 (* Part "qf" also evaluates the conversion of a legacy checkpoint exactly  *)
 (*   (j = 0): whitening the stored (m, S) and VariationalStrategy.forward  *)
 (*   on the result give the direct reading of (m, S) (LegacyOK).           *)
@@ -450,6 +457,55 @@ JitInfo(q) == [eff |-> JitOf("self", q.jarg), explicit |-> q.jarg # "none",
                sites |-> [site \in JitSites |-> JitOf(SiteSrc(site), q.jarg)]]
 JitSame == Part = "jit" => \A site \in JitSites : out.sites[site] = out.eff
 
+\* ============================== part "qu": structure of q(u) x size of the inducing set ========
+\* The property quantifies over q(u): its structure and conditioning are a dimension of the case lattice, for EVERY strategy and distribution
+\* class, next to the number M of inducing points relative to the iteration caps of the iterative solvers (a solve that is cut short is
+\* invisible while q(u) is close to the prior, diagonal, or M is far below every cap).
+\*   nearprior  q(u) = p(u) up to a small perturbation (whitened coordinates: mean ~ 0, S ~ I)
+\*   diag       diagonal precision, entries 1 .. 1e2      (a Jacobi-preconditioned solve is exact after one step)
+\*   dense      dense precision, eigenvalues 1 .. 1e2
+\*   ill        dense precision, eigenvalues 1 .. 1e4     (a mean-field module: diagonal with that spectrum)
+\* Solver settings of these cells: every TOLERANCE tight; QuCaps are the iteration caps: "cg" = max_cg_iterations (set far above M),
+\* "lanczos" = max_lanczos_quadrature_iterations (the library default: it bounds the Lanczos estimate of the spectrum, an input of the
+\* quadrature nodes only).  MOf: "below" / "above" the smaller cap.
+QClasses == {"nearprior", "diag", "dense", "ill"}
+MSizes   == {"below", "above"}
+QuCaps   == [cg |-> 1000, lanczos |-> 20]
+MOf(ms)  == IF ms = "below" THEN 16 ELSE 24
+\* which classes a distribution class can express: a point mass has no covariance (near the prior mean / a generic mean), a mean-field module
+\* is diagonal; near-prior in the coordinates of u needs a full covariance (p(u) = N(mz, Kzz) is dense)
+ValidQuCell(q) ==
+  /\ (q.strat = "BatchDecoupledVariationalStrategy" => q.dist # "Delta")
+  /\ (q.strat = "GridInterpolationVariationalStrategy" => q.dist # "Delta")
+  /\ (q.dist = "Delta" => q.qclass \in {"nearprior", "dense"})
+  /\ (q.dist = "MeanField" => q.qclass # "dense")
+  /\ (q.dist = "MeanField" /\ q.qclass = "nearprior" => StratInfo(q.strat).white \notin {"none", "interp"} \/ StratInfo(q.strat).wraps)
+QuCells == {q \in [strat : Strategies, dist : Dists, qclass : QClasses, msize : MSizes] : ValidQuCell(q)}
+\* iterations a Krylov solve on the precision of the class needs before the tolerance is met (exact arithmetic: the number of distinct
+\* eigenvalues after Jacobi preconditioning; ill: rounding destroys orthogonality, more than M steps - measured up to 3 M)
+QuNeed(q) == CASE q.qclass = "nearprior" -> 4 [] q.qclass = "diag" -> 1 [] q.qclass = "dense" -> MOf(q.msize) [] OTHER -> 3 * MOf(q.msize)
+\* the iterative solves a cell performs (everything else is a dense factorisation: M is far below max_cholesky_size) and the setting that
+\* caps each: CIQ applies Kzz^-1/2 by MINRES on shifted systems; on its natural-gradient path (NaturalVariationalDistribution) it never forms
+\* (m, S) and solves with the precision -2 Theta instead.  Variant.preccap = "lanczos" is the broken variant: that solve capped like the
+\* Lanczos estimate.
+QuSolves(q) ==
+  IF q.strat # "CiqVariationalStrategy" THEN {}
+  ELSE {[site |-> "kzz-invsqrt", cap |-> "cg", need |-> MOf(q.msize)]}
+       \cup (IF q.dist = "Natural" THEN {[site |-> "precision", cap |-> Variant.preccap, need |-> QuNeed(q)]} ELSE {})
+QuInfo(q) == [M |-> MOf(q.msize), solves |-> QuSolves(q), tol |-> IF QuSolves(q) = {} THEN "direct" ELSE "settings"]
+\* every iterative solve runs until the TOLERANCE setting is met: no cap cuts it short, so the output is the closed form at the tolerance
+\* the settings state, whatever q(u) is
+QuConverges == Part = "qu" => \A sv \in out.solves : sv.need <= QuCaps[sv.cap]
+\* cover: every strategy x every distribution class it accepts has a dense ill-conditioned (mean-field: diagonal ill-conditioned; point mass:
+\* generic mean) cell and a near-prior / diagonal cell at both sizes, and the cell that separates the two caps exists
+QuCover == Part = "qu" =>
+  /\ \A s \in Strategies, d \in Dists, ms \in MSizes :
+        (\E q \in QuCells : q.strat = s /\ q.dist = d) =>
+          /\ \E q \in QuCells : q.strat = s /\ q.dist = d /\ q.msize = ms /\ q.qclass \in {"ill", "dense"}
+          /\ \E q \in QuCells : q.strat = s /\ q.dist = d /\ q.msize = ms /\ q.qclass \in {"nearprior", "diag"}
+  /\ \E q \in QuCells : \E sv \in QuSolves(q) : sv.need > QuCaps.lanczos /\ sv.need <= QuCaps.cg
+  /\ MOf("below") < QuCaps.lanczos /\ MOf("above") > QuCaps.lanczos /\ 3 * MOf("above") <= QuCaps.cg
+
 \* ============================== part "hist" ===================================================
 \* c = [ver : version of the parameters, memo : version the memoised q(u) / p(u) were computed from (0: nothing memoised),
 \*      fresh : a forward call happened since the last optimizer step];  out = history of observations
@@ -575,6 +631,7 @@ Init ==
     [] Part = "paths"   -> c \in PathCells /\ out = PathInfo(c.path)
     [] Part = "ehist"   -> c = EInit /\ out = EOut0
     [] Part = "jit"     -> c \in JitCells /\ out = JitInfo(c)
+    [] Part = "qu"      -> c \in QuCells /\ out = QuInfo(c)
 
 Next == IF Part = "hist" THEN Forward \/ KL \/ OptStep ELSE IF Part = "ehist" THEN ENext ELSE UNCHANGED vars
 Spec == Init /\ [][Next]_vars
